@@ -160,7 +160,7 @@ impl Prop for C13 {
         vec!["the pinned SQLSTATE snapshot (data/sqlstate_snapshot.json) equals the table of the pinned tree; it detects swapped/changed arms but would also flag a deliberate upstream correction".into()]
     }
     fn cases(&self, tier: Tier) -> u64 {
-        tier.pick(1_500, 20_000)
+        tier.pick(15000, 100000)
     }
     fn choice_len(&self) -> usize {
         64
